@@ -376,6 +376,9 @@ impl Property for C14 {
         });
         Box::new(sweep.chain(presence))
     }
+    fn fuzz_plans(&self) -> Vec<(&'static str, u64)> {
+        vec![("history", 8000)]
+    }
     fn gen(&self, c: &mut Choices) -> Case {
         Case::Hist(history::gen_history(c, None))
     }
